@@ -16,12 +16,18 @@
 (*            denotes when written in defsrc, as a layer action, as a        *)
 (*            deflayermap input, in the process-unmapped-keys exception list *)
 (*            and in defoverrides (observed through the real parser)         *)
+(*   LkRows   Seq([n, lk, obs]): the name n observed under the                *)
+(*            deflocalkeys-linux block lk = Seq([n, c]) (<<>>: no block) in   *)
+(*            every configuration position that takes a key name; obs =       *)
+(*            Seq([p |-> position, v |-> code held there]); v = -1: the        *)
+(*            position does not take this name as a key (action keyword,     *)
+(*            syntax), -2: something else than one key, -3: rejected          *)
 (* What the property statement requires of them is stated below; one state  *)
 (* per code value, so that the state count is the number of codes checked.  *)
 (***************************************************************************)
 EXTENDS Naturals, Integers, Sequences, FiniteSets, TLC, Json
 
-CONSTANTS KcEnum, OscEnum, FromFn, NoneCount, ConvFn, Names, NamePos
+CONSTANTS KcEnum, OscEnum, FromFn, NoneCount, ConvFn, Names, NamePos, LkRows
 
 KcDisc == {KcEnum[i].v : i \in DOMAIN KcEnum}
 OscDisc == {OscEnum[i].v : i \in DOMAIN OscEnum}
@@ -55,8 +61,21 @@ NopName(k) == CASE k = 0 -> "nop0" [] k = 1 -> "nop1" [] k = 2 -> "nop2" [] k = 
                 [] k = 5 -> "nop5" [] k = 6 -> "nop6" [] k = 7 -> "nop7" [] k = 8 -> "nop8" [] k = 9 -> "nop9"
 T_NopNames == \A k \in 0..9 : \E i \in DOMAIN Names : Names[i].n = NopName(k) /\ Names[i].c = 676 + k
 
+\* ---- names under deflocalkeys -------------------------------------------------------
+\* docs/config.adoc "deflocalkeys": the block defines key names "that can be used in defsrc, deflayer and anywhere
+\* else in the configuration"; docs/locales.adoc gives built-in names (z, y, <, ;, ...) a new code this way.  So the
+\* code a name denotes is a function of the name and the block only: the block's code when the block names it,
+\* the built-in code otherwise - in every position, and whatever was parsed before.
+LkHas(lk, n) == \E i \in DOMAIN lk : lk[i].n = n
+LkCode(lk, n) == lk[CHOOSE i \in DOMAIN lk : lk[i].n = n].c
+NameKnown(n) == \E i \in DOMAIN Names : Names[i].n = n
+BuiltinCode(n) == Names[CHOOSE i \in DOMAIN Names : Names[i].n = n].c
+Denotes(n, lk) == IF LkHas(lk, n) THEN LkCode(lk, n) ELSE IF NameKnown(n) THEN BuiltinCode(n) ELSE 0 - 9
+LkBad(r) == {i \in DOMAIN r.obs : ~PosOk(r.obs[i].v, Denotes(r.n, r.lk))}
+T_LkPositions == \A i \in DOMAIN LkRows : LkBad(LkRows[i]) = {}
+
 Global == /\ T_DiscEqual /\ T_EnumInjective /\ T_FromTotal /\ T_FromInEnum
-          /\ T_NamesFunctional /\ T_NamesInDomain /\ T_NamePositions /\ T_NopNames
+          /\ T_NamesFunctional /\ T_NamesInDomain /\ T_NamePositions /\ T_NopNames /\ T_LkPositions
 
 \* ---- per code value ------------------------------------------------------------------
 \* as_u16 o from_u16 = id on the domain of from_u16; outside the enum from_u16 is None
@@ -90,6 +109,12 @@ GlobalProbe == code = 0 =>
         names |-> {NamePos[i] : i \in {j \in DOMAIN NamePos :
                      LET r == NamePos[j] IN ~(PosOk(r.src, r.c) /\ PosOk(r.act, r.c) /\ PosOk(r.lmap, r.c)
                                               /\ PosOk(r.exc, r.c) /\ PosOk(r.ovr, r.c))}}])>>))
+  /\ \A i \in DOMAIN LkRows :
+       LET r == LkRows[i] IN
+       LkBad(r) = {} \/ PrintT(<<"TERR", ToJson([req |-> IF r.lk = <<>> THEN "a key name denotes different codes in different positions"
+                                                           ELSE "under deflocalkeys a key name does not denote the same code in every position",
+                                                  row |-> i, n |-> r.n, lk |-> r.lk, denotes |-> Denotes(r.n, r.lk),
+                                                  differs |-> {r.obs[j] : j \in LkBad(r)}])>>)
   /\ (T_NopNames \/ PrintT(<<"TERR", ToJson([req |-> "nop0..nop9 do not denote the reserved no-op codes 0x2a4..0x2ad"])>>))
   /\ PrintT(<<"TNOTE", ToJson([unreachable |-> Unreachable, pseudo |-> Pseudo])>>)
 CodeProbe ==
